@@ -33,14 +33,14 @@ def text_of(n, style=None):
     s = TEXTS[n]
     if style and style.get("longtext"):
         # > 12 bytes so the value is stored out of line; order-preserving.
-        return "text-value-" + s * 3
+        return "text-value-xx" + s * 3
     return s
 
 
 def text_index(s, style=None):
     if style and style.get("longtext"):
-        if s.startswith("text-value-") and len(s) == 14:
-            s = s[11]
+        if s.startswith("text-value-xx") and len(s) == 16:
+            s = s[13]
     if s in TEXTS:
         return TEXTS.index(s)
     return None
@@ -488,7 +488,12 @@ def db_setup_sql(db, style=None):
         d = db[t]
         cols = ", ".join(f"{r.ident(n)} {SQLTYPE[c]}" for n, c in zip(d["names"], d["cols"]))
         out.append(f"CREATE TEMP TABLE {r.ident(t)} ({cols})")
-        if d["rows"]:
+        if d["rows"] and style and style.get("split_inserts"):
+            # one INSERT per row: every row is its own storage segment, so parallel scans spread the rows over
+            # partitions (several sorted runs / partial aggregates / probe partitions even for tiny tables)
+            for row in d["rows"]:
+                out.append(f"INSERT INTO {r.ident(t)} VALUES (" + ", ".join(lit_sql(v, c, style) for v, c in zip(row, d["cols"])) + ")")
+        elif d["rows"]:
             rows = ", ".join("(" + ", ".join(lit_sql(v, c, style) for v, c in zip(row, d["cols"])) + ")"
                              for row in d["rows"])
             out.append(f"INSERT INTO {r.ident(t)} VALUES {rows}")
